@@ -2,7 +2,7 @@
 
 Same GRAMMAR engine as C01 (abstract interpretation of load.rs for every abstract case).
 """
-from vlib import facts as F, thir as T, xmlgrammar as X
+from vlib import facts as F, thir as T, xmlgrammar as X, xmlemit as XE
 from vlib.report import loc_of
 from . import agent_common as AC
 
@@ -40,7 +40,7 @@ def run(ctx):
             continue
         n += 1
         new_empty = "new=∅" in label
-        for x in X.walk_nodes(nodes):
+        for x in XE.walk_nodes(nodes):
             if isinstance(x.get("tag"), str):
                 names.add(x["tag"])
             elif x.get("tag") is not None:
@@ -65,11 +65,11 @@ def run(ctx):
                     if c.get("tag") != "route-filter":
                         continue
                     deleted = AC.has_attr(c, "delete", "delete")
-                    star = c.get("star") or ""
+                    star = c.get("star") or ()
                     if deleted:
-                        ok = star == "Ranges::diff(OLD,self.new)"
+                        ok = star == ("difference", "OLD", "NEW")
                     else:
-                        ok = star in ("Ranges::iter(self.new)", "Ranges::diff(self.new,OLD)")
+                        ok = star in (("iter", "NEW"), ("difference", "NEW", "OLD"))
                     chk.instance("C02/R2", "%s: %s route-filters come from %s" % (kc, "deleted" if deleted else "added", star), fn,
                                  loc_of(c.get("sp")), holds=ok, key="C02/R2 route-filter-source %s %s" % (kc, "delete" if deleted else "add"))
                 for c in th.get("children", []):
@@ -87,7 +87,7 @@ def run(ctx):
         if isinstance(nodes, str):
             chk.instance("C02/R4", "envelope for %s could not be derived" % var, fn2, None, holds=False, detail=nodes, key="C02/R4 undecided %s" % var)
             continue
-        for x in X.walk_nodes(nodes):
+        for x in XE.walk_nodes(nodes):
             if isinstance(x.get("tag"), str):
                 names.add(x["tag"])
             elif x.get("tag") is not None:
@@ -108,10 +108,10 @@ def run(ctx):
             ok = bool(kids) and kids[-1].get("tag") == "then" and [c.get("tag") for c in kids[-1]["children"]] == ["reject"] \
                 and not kids[-1].get("star")
             chk.instance("C02/R4", "Update: unconditional trailing <then><reject/></then>", fn2, None, holds=ok, key="C02/R4 trailing-reject")
-            acc = [x for x in X.walk_nodes(nodes) if x.get("tag") == "accept"]
+            acc = [x for x in XE.walk_nodes(nodes) if x.get("tag") == "accept"]
             chk.instance("C02/R4", "Update envelope itself never emits accept", fn2, None, holds=not acc, key="C02/R4 envelope-accept")
         if var == "Delete" and path:
-            acts = [x for x in X.walk_nodes(nodes) if x.get("tag") in ("accept", "then", "term")]
+            acts = [x for x in XE.walk_nodes(nodes) if x.get("tag") in ("accept", "then", "term")]
             chk.instance("C02/R4", "Delete emits no terms / actions", fn2, None, holds=not acts, key="C02/R4 delete-has-actions")
     extra = names - ALLOWED_ELEMENTS
     chk.instance("C02/R5", "element names emitted by the agent ⊆ the policy-statement vocabulary (%s)" % sorted(names), fn, None,
